@@ -25,23 +25,113 @@ Qed.
 Lemma lbd_date_only t t' : day_of_ts t = day_of_ts t' -> lbd_should_trade t = lbd_should_trade t'.
 Proof. intros H. rewrite !lbd_by_day, H. reflexivity. Qed.
 
-Lemma lbd_spec_day d :
-  0 <= d < supported_days -> lbd_should_trade_day d = spec_last_business_day d.
+(* ---- periodicity: 400 Gregorian years are 146 097 days, a whole number of weeks ---------------------- *)
+
+
+Lemma civil_shift d :
+  civil_from_days (d + cycle_days) =
+  let '(y, m, dd) := civil_from_days d in (y + 400, m, dd).
 Proof.
-  intros Hd. pose proof spec_sweep as H. rewrite forallb_forall in H.
-  specialize (H d). apply eqb_prop. apply H. apply zrange_In.
-  rewrite Z2Nat.id by (unfold supported_days; lia). lia.
+  unfold civil_from_days, cycle_days.
+  replace (d + 146097 + 719468) with (d + 719468 + 1 * 146097) by lia.
+  rewrite Z.div_add by lia.
+  set (z := d + 719468). set (era := z / 146097).
+  replace (z + 1 * 146097 - (era + 1) * 146097) with (z - era * 146097) by lia.
+  set (doe := z - era * 146097).
+  set (yoe := (doe - doe / 1460 + doe / 36524 - doe / 146096) / 365).
+  set (doy := doe - (365 * yoe + yoe / 4 - yoe / 100)).
+  set (mp := (5 * doy + 2) / 153).
+  cbv zeta.
+  destruct ((if mp <? 10 then mp + 3 else mp - 9) <=? 2); f_equal; f_equal; lia.
 Qed.
 
-Lemma lbd_spec t :
-  0 <= t < supported_days * 86400 ->
-  lbd_should_trade t = spec_last_business_day (day_of_ts t).
+Lemma weekday_shift d : weekday_of (d + cycle_days) = weekday_of d.
 Proof.
-  intros Ht. rewrite lbd_by_day. apply lbd_spec_day.
-  unfold day_of_ts. split.
-  - apply Z.div_pos; lia.
-  - apply Z.div_lt_upper_bound; lia.
+  unfold weekday_of, cycle_days. replace (d + 146097 + 4) with (d + 4 + 20871 * 7) by lia.
+  apply Z_mod_plus_full.
 Qed.
+
+Lemma weekend_shift d : is_weekend (d + cycle_days) = is_weekend d.
+Proof. unfold is_weekend. rewrite weekday_shift. reflexivity. Qed.
+
+Lemma month_shift d : month_of (d + cycle_days) = month_of d.
+Proof. unfold month_of. rewrite civil_shift. destruct (civil_from_days d) as [[y m] dd]. reflexivity. Qed.
+
+Lemma dom_shift d : dom_of (d + cycle_days) = dom_of d.
+Proof. unfold dom_of. rewrite civil_shift. destruct (civil_from_days d) as [[y m] dd]. reflexivity. Qed.
+
+Lemma year_shift d : year_of (d + cycle_days) = year_of d + 400.
+Proof. unfold year_of. rewrite civil_shift. destruct (civil_from_days d) as [[y m] dd]. reflexivity. Qed.
+
+Lemma leap_shift y : is_leap (y + 400) = is_leap y.
+Proof.
+  unfold is_leap.
+  replace (y + 400) with (y + 100 * 4) at 1 by lia. rewrite Z_mod_plus_full.
+  replace (y + 400) with (y + 4 * 100) at 1 by lia. rewrite Z_mod_plus_full.
+  replace (y + 400) with (y + 1 * 400) by lia. rewrite Z_mod_plus_full. reflexivity.
+Qed.
+
+Lemma dim_shift y m : days_in_month (y + 400) m = days_in_month y m.
+Proof. unfold days_in_month. rewrite leap_shift. reflexivity. Qed.
+
+Lemma zrange_shift n : forall s c, map (fun k => k + c) (zrange n s) = zrange n (s + c).
+Proof.
+  induction n as [|n IH]; intros s c; cbn [zrange map]; [reflexivity|].
+  f_equal. rewrite IH. f_equal. lia.
+Qed.
+
+Lemma lbd_day_shift d : lbd_should_trade_day (d + cycle_days) = lbd_should_trade_day d.
+Proof.
+  unfold lbd_should_trade_day, lbd_look_day.
+  rewrite dom_shift, weekend_shift, month_shift.
+  replace (d + cycle_days + 1) with (d + 1 + cycle_days) by lia.
+  replace (d + cycle_days + 2) with (d + 2 + cycle_days) by lia.
+  replace (d + cycle_days + 3) with (d + 3 + cycle_days) by lia.
+  rewrite !weekend_shift, !month_shift. reflexivity.
+Qed.
+
+Lemma spec_shift d : spec_last_business_day (d + cycle_days) = spec_last_business_day d.
+Proof.
+  unfold spec_last_business_day. rewrite civil_shift.
+  destruct (civil_from_days d) as [[y m] dd]. rewrite weekend_shift, dim_shift. f_equal.
+  induction (zrange (Z.to_nat (days_in_month y m - dd)) 1) as [|k l IHl]; cbn [forallb]; [reflexivity|].
+  rewrite IHl. f_equal.
+  replace (d + cycle_days + k) with (d + k + cycle_days) by lia. apply weekend_shift.
+Qed.
+
+(* a function of the day number that is invariant under a shift by one period is determined by its values on
+   one period *)
+Lemma periodic_k {A} (f : Z -> A) :
+  (forall d, f (d + cycle_days) = f d) -> forall k d, f (d + k * cycle_days) = f d.
+Proof.
+  intros Hp k. induction k as [|k IH|k IH] using Z.peano_ind; intros d.
+  - f_equal. lia.
+  - replace (d + Z.succ k * cycle_days) with (d + k * cycle_days + cycle_days) by lia.
+    rewrite Hp. apply IH.
+  - rewrite <- (Hp (d + Z.pred k * cycle_days)).
+    replace (d + Z.pred k * cycle_days + cycle_days) with (d + k * cycle_days) by lia. apply IH.
+Qed.
+
+Lemma periodic_reduce {A} (f : Z -> A) :
+  (forall d, f (d + cycle_days) = f d) -> forall d, f d = f (d mod cycle_days).
+Proof.
+  intros Hp d. rewrite <- (periodic_k f Hp (d / cycle_days) (d mod cycle_days)).
+  f_equal. pose proof (Z.div_mod d cycle_days ltac:(unfold cycle_days; lia)). lia.
+Qed.
+
+(* the schedule agrees with the specification on EVERY day *)
+Lemma lbd_spec_day d : lbd_should_trade_day d = spec_last_business_day d.
+Proof.
+  apply eqb_prop.
+  rewrite (periodic_reduce (fun d => Bool.eqb (lbd_should_trade_day d) (spec_last_business_day d))).
+  - pose proof spec_sweep as H. rewrite forallb_forall in H. apply H. apply zrange_In.
+    pose proof (Z.mod_pos_bound d cycle_days ltac:(unfold cycle_days; lia)).
+    rewrite Z2Nat.id by (unfold cycle_days; lia). lia.
+  - intros d0. rewrite lbd_day_shift, spec_shift. reflexivity.
+Qed.
+
+Lemma lbd_spec t : lbd_should_trade t = spec_last_business_day (day_of_ts t).
+Proof. rewrite lbd_by_day. apply lbd_spec_day. Qed.
 
 (* Prop-level reading of the specification *)
 Lemma spec_last_business_day_iff d :
@@ -77,11 +167,51 @@ Proof.
     rewrite (IH _ _ H1 k ltac:(lia)). rewrite iter_succ_r. reflexivity.
 Qed.
 
-Lemma civil_is_gregorian d :
-  0 <= d < supported_days ->
-  civil_from_days d = Nat.iter (Z.to_nat d) next_ymd (1970, 1, 1).
+Lemma ymd_eqb_refl c : ymd_eqb c c = true.
+Proof. destruct c as [[y m] dd]. unfold ymd_eqb. rewrite !Z.eqb_refl. reflexivity. Qed.
+
+(* next_ymd commutes with a shift by 400 years *)
+Lemma next_ymd_shift y m dd :
+  next_ymd (y + 400, m, dd) = let '(y', m', dd') := next_ymd (y, m, dd) in (y' + 400, m', dd').
 Proof.
-  intros Hd. pose proof (calendar_agrees_nth _ _ _ calendar_sweep (Z.to_nat d)) as H.
-  rewrite Z2Nat.id in H by lia. simpl in H. apply H.
-  unfold supported_days in *. lia.
+  unfold next_ymd. rewrite dim_shift.
+  destruct (dd <? days_in_month y m); [reflexivity|].
+  destruct (m <? 12); [reflexivity|]. f_equal. f_equal. lia.
+Qed.
+
+(* the model's calendar is the proleptic Gregorian calendar on EVERY day: 1970-01-01 is day 0 and each day's
+   date is the successor (days_in_month / leap-year rule) of the previous day's *)
+Lemma civil_epoch : civil_from_days 0 = (1970, 1, 1).
+Proof. reflexivity. Qed.
+
+Lemma civil_next d : civil_from_days (d + 1) = next_ymd (civil_from_days d).
+Proof.
+  apply (f_equal (fun b => b)).
+  assert (Hp : forall d0, ymd_eqb (civil_from_days (d0 + cycle_days + 1)) (next_ymd (civil_from_days (d0 + cycle_days)))
+                          = ymd_eqb (civil_from_days (d0 + 1)) (next_ymd (civil_from_days d0))).
+  { intros d0. replace (d0 + cycle_days + 1) with (d0 + 1 + cycle_days) by lia. rewrite !civil_shift.
+    destruct (civil_from_days (d0 + 1)) as [[y1 m1] dd1]. destruct (civil_from_days d0) as [[y m] dd].
+    rewrite next_ymd_shift. destruct (next_ymd (y, m, dd)) as [[y' m'] dd']. unfold ymd_eqb.
+    f_equal. f_equal. apply eq_true_iff_eq. rewrite !Z.eqb_eq. lia. }
+  assert (Hall : ymd_eqb (civil_from_days (d + 1)) (next_ymd (civil_from_days d)) = true).
+  { rewrite (periodic_reduce (fun d => ymd_eqb (civil_from_days (d + 1)) (next_ymd (civil_from_days d))) Hp).
+    set (r := d mod cycle_days).
+    pose proof (Z.mod_pos_bound d cycle_days ltac:(unfold cycle_days; lia)) as Hr. fold r in Hr.
+    pose proof (calendar_agrees_nth _ _ _ calendar_sweep) as H.
+    pose proof (H (Z.to_nat r) ltac:(unfold cycle_days in *; lia)) as H0.
+    pose proof (H (S (Z.to_nat r)) ltac:(unfold cycle_days in *; lia)) as H1.
+    rewrite Z.add_0_l, Z2Nat.id in H0 by lia.
+    rewrite Z.add_0_l, Nat2Z.inj_succ, Z2Nat.id in H1 by lia.
+    replace (Z.succ r) with (r + 1) in H1 by lia.
+    rewrite H1, H0. cbn [Nat.iter]. apply ymd_eqb_refl. }
+  destruct (civil_from_days (d + 1)) as [[y1 m1] dd1]. destruct (next_ymd (civil_from_days d)) as [[y m] dd].
+  unfold ymd_eqb in Hall. rewrite !andb_true_iff, !Z.eqb_eq in Hall. destruct Hall as [[-> ->] ->]. reflexivity.
+Qed.
+
+Lemma civil_is_gregorian d :
+  0 <= d -> civil_from_days d = Nat.iter (Z.to_nat d) next_ymd (1970, 1, 1).
+Proof.
+  intros Hd. rewrite <- (Z2Nat.id d Hd) at 1. induction (Z.to_nat d) as [|n IH]; [reflexivity|].
+  rewrite Nat2Z.inj_succ. replace (Z.succ (Z.of_nat n)) with (Z.of_nat n + 1) by lia.
+  rewrite civil_next, IH. reflexivity.
 Qed.
